@@ -112,7 +112,16 @@ func buildC20(tier string) sim.Scenario {
 					}
 				})
 			}
-			wg.Wait()
+			allBack := make(chan struct{})
+			w.Go("reqs.wait", func() { wg.Wait(); close(allBack) })
+			tmo := time.NewTimer(150 * time.Second)
+			select {
+			case <-allBack:
+				tmo.Stop()
+			case <-tmo.C:
+				w.Fail("C20/requester-hangs", "%d simultaneous requests for %s with a camera that behaves: not all of them were answered within 150 simulated seconds", n, tg.path)
+				return
+			}
 			w.Sleep(20 * time.Second)
 			for i, s := range got {
 				if s == nil {
